@@ -965,3 +965,30 @@ def run_maps_step_results(ctx, rule, which):
             if not ok:
                 bad = "when step() answers %s run() answers %s%s" % (r, ret, " (profiling loop)" if any(v and "profile" in g for g, v in pc["guards"].items()) else "")
     ctx.ob(rule, "run-passes-step-results-on/%s" % which, bad is None and len(seen) >= 3, bad or "Continue / Suspend / Script / EncodingIndicator each passed on unchanged, in every loop", "%s tokenizer run" % which)
+
+
+def end_runs_before_eof(ctx, rule, which):
+    """end(): on every path, after the end-of-input flag is set, the state machine is run once more over the queue - unconditionally -
+    before eof_step decides per state.  That run is what re-joins a look-ahead stash (`<!-` at the very end: eat() parked '-'
+    in temp_buf and only the next eat() hands it back) and what consumes text a character reference handed back; skipping it
+    when the queue looks empty loses the stash"""
+    T = ctx.tables(which)
+    cells = T["helpers"].get("end")
+    if not cells:
+        raise AnchorMissing("%s tokenizer end not tabulated" % which)
+    bad = None
+    n = 0
+    for pc in cells:
+        names = [a for a, _ in pc["actions"]]
+        if "eof_step" not in names and str(pc["ret"]) == "!":
+            continue
+        n += 1
+        if "run" not in names:
+            bad = bad or "a path of end() reaches %s without running the state machine over the queue first (guards %s)" % ("eof_step" if "eof_step" in names else "its end", [k for k in pc["guards"]][:3])
+            continue
+        i_run = names.index("run")
+        if "eof_step" in names and names.index("eof_step") < i_run:
+            bad = bad or "eof_step before the final run"
+        if "set self.at_eof" not in names[:i_run]:
+            bad = bad or "the final run happens before the end-of-input flag is set"
+    ctx.ob(rule, "end-runs-the-machine-before-eof-step/%s" % which, bad is None and n >= 2, bad or "%d paths: at_eof := true; run(queue); then eof_step" % n, "%s tokenizer end" % which)
